@@ -295,6 +295,45 @@ func h265GenDesc(r *Rand, kind int, mode bool) *h265Desc {
 	return d
 }
 
+// h265FixSemantics turns a description that is well-formed as a field layout into one RFC 7798 also
+// allows semantically (what lean/Driver/Kinds/H265.lean calls semanticOK): the units of an aggregation
+// packet are NAL units with F = 0, a plain type 0-47 and at least one payload octet, the aggregation
+// packet's LayerId / TID are the minima over its units (4.4.2); a PACI packet does not carry a PACI
+// packet (4.4.4).  Only on such payloads does C14 demand exact decoding (c14.dec).
+func h265FixSemantics(r *Rand, d *h265Desc) {
+	switch d.Kind {
+	case "ap":
+		minLayer, minTID := 63, 7
+		fix := func(n []byte) []byte {
+			for len(n) < 3 {
+				n = append(n, r.Byte())
+			}
+			typ := int(n[0]>>1) & 63
+			if typ >= 48 {
+				typ = r.Pick(r.Intn(48), 0, 1, 19, 32, 33, 34, 39, 47)
+			}
+			n[0] = byte(typ<<1) | n[0]&1 // F = 0, the high LayerId bit stays
+			layer, tid := int(n[0]&1)<<5|int(n[1]>>3), int(n[1]&7)
+			if layer < minLayer {
+				minLayer = layer
+			}
+			if tid < minTID {
+				minTID = tid
+			}
+			return n
+		}
+		d.First = fix(d.First)
+		for i := range d.Rest {
+			d.Rest[i].Nal = fix(d.Rest[i].Nal)
+		}
+		d.Hdr.Layer, d.Hdr.TID = minLayer, minTID
+	case "paci":
+		if d.CType == 50 {
+			d.CType = r.Pick(r.Intn(48), 48, 49)
+		}
+	}
+}
+
 // ---------------------------------------------------------------------------------------------
 // NAL unit and Annex-B generators
 
@@ -579,7 +618,8 @@ func genH265Dec(x *Ctx) {
 		// the description is drawn once (from the first case's PRNG) and re-drawn identically for
 		// every truncation, so each case replays on its own
 		mk := func() *h265Desc {
-			d := h265GenDesc(newRand(x.Seed, x.Kind+"/desc", i), kind, mode)
+			r := newRand(x.Seed, x.Kind+"/desc", i)
+			d := h265GenDesc(r, kind, mode)
 			if i < 8 {
 				// the first cases stay short (readable sample lines in the evidence)
 				if len(d.Payload) > 6 {
@@ -596,6 +636,11 @@ func genH265Dec(x *Ctx) {
 						d.Rest[j].Nal = d.Rest[j].Nal[:6]
 					}
 				}
+			}
+			// about one description in ten stays as drawn (random inner units, random AP header ids,
+			// nested PACI): RFC 7798 forbids those, they are compared with the model only
+			if r.Intn(10) != 0 {
+				h265FixSemantics(r, d)
 			}
 			return d
 		}
